@@ -14,14 +14,19 @@ PROP_FILES = ['Props/C02.v']
 TRANSLATORS = ['callback_skeleton', 'run_skeleton', 'run_record']
 TRUSTED_BASE = _life.TRUSTED_BASE + [
     'translate/run_record.py (ast -> terms of Life/RecordSyntax.v; fail closed: any statement / expression of the translated '
-    'functions that is not recognised aborts the translation; dropped: logging, docstrings, typing, time stamps), '
+    'functions that is not recognised aborts the translation; ignored positions follow the shared rule of harness/HARDEN_TASK.md: '
+    'only docstrings, bare annotations and logger calls with call-free arguments; asserts and time stamps are translated; '
+    'pins: the six untracked statements of RunSession.run (UNTRACKED_SESSION), the body of is_timezone_aware), '
     'translate/callback_skeleton.py, translate/run_skeleton.py; the semantics given to the terms in Life/RecordInterp.v '
     '(Python attribute / dict / dataclass / `or` / `and` / walrus semantics as far as the code uses them; attribute reads of '
     'live objects (Process.exitcode, .pid), strftime, datetime.now, json.dumps, traceback.format_exception do not raise; a '
     'module-level dict is consulted with one key per await) and in Life/RecordRun.v (the data statements of an atomic '
     'segment run at its control point; the continuation of an await runs iff the await returned; a hook call reaches the '
-    'built-in implementations whether or not another plugin raises; pluggy calls implementations by argument name, last '
-    'registered first, firstresult = first non-None)',
+    'built-in implementations unless the caller is cancelled before they had a step (world field rw_ran: ONE flag for all hook '
+    'awaits of a run that raise); pluggy calls implementations by argument name, last registered first, firstresult = first '
+    'non-None); cancellation = the oracle of Life/FailStart.v makes the await raise: try/finally and `async with` have their '
+    'real meaning there, a cancellation BETWEEN awaits does not exist in asyncio; not modelled: a second cancellation '
+    'inside a finally block beyond what the oracle already allows (every await of a finally block may raise too)',
 ]
 ASSUMPTIONS = _life.ASSUMPTIONS + [
     'RecordRun: the child is one of {spawned.main returned RunResult(ret, exc) built by the translated class, spawned.main '
